@@ -3,7 +3,8 @@
 package harness
 
 // Extraction of the admission tables from the source tree under test (go/parser,
-// go/ast, go/printer only).  This is the in-harness copy of tools/antelist: the
+// go/ast, go/printer only; chains and routing by the semantic extraction of c19_extract.go,
+// the same code as tools/gokernel/ante.go): the
 // suite runs it on every check, ships the result inside each case file, and the
 // Coq checker (Check/AnteCheck.v) compares it with the reference tables of
 // Model/Ante.v that the theorems are stated about.  Files are read from
@@ -33,6 +34,7 @@ type c19Tables struct {
 	SwitchDefault string
 	Plain         []string
 	Disabled      []string
+	SwitchGuard   []string // conditions under which the extension-option dispatch is reached (not part of the Coq term)
 }
 
 func c19Src(fset *token.FileSet, n ast.Node) string {
@@ -58,160 +60,6 @@ func c19Imports(f *ast.File) map[string]string {
 		m[name] = p
 	}
 	return m
-}
-
-// c19Qualify prints an expression with its leading package qualifier replaced by the import path.
-func c19Qualify(fset *token.FileSet, imp map[string]string, e ast.Expr) string {
-	head := e
-	switch x := e.(type) {
-	case *ast.CallExpr:
-		head = x.Fun
-	case *ast.CompositeLit:
-		head = x.Type
-	}
-	text := c19Src(fset, e)
-	switch h := head.(type) {
-	case *ast.SelectorExpr:
-		if id, ok := h.X.(*ast.Ident); ok {
-			if p, ok := imp[id.Name]; ok {
-				return p + strings.TrimPrefix(text, id.Name)
-			}
-		}
-	case *ast.Ident:
-		return "local." + text
-	}
-	return text
-}
-
-func c19ExtractChains(fset *token.FileSet, f *ast.File) []c19Chain {
-	imp := c19Imports(f)
-	var out []c19Chain
-	for _, d := range f.Decls {
-		fd, ok := d.(*ast.FuncDecl)
-		if !ok || fd.Body == nil {
-			continue
-		}
-		ast.Inspect(fd.Body, func(n ast.Node) bool {
-			call, ok := n.(*ast.CallExpr)
-			if !ok {
-				return true
-			}
-			sel, ok := call.Fun.(*ast.SelectorExpr)
-			if !ok || sel.Sel.Name != "ChainAnteDecorators" {
-				return true
-			}
-			c := c19Chain{Name: fd.Name.Name}
-			for _, a := range call.Args {
-				c.Decorators = append(c.Decorators, c19Qualify(fset, imp, a))
-			}
-			out = append(out, c)
-			return false
-		})
-	}
-	return out
-}
-
-// c19HandlerAssigned returns the right-hand side of the first assignment to the
-// variable anteHandler inside the statements, "" when there is none.
-func c19HandlerAssigned(fset *token.FileSet, stmts []ast.Stmt) string {
-	found := ""
-	for _, s := range stmts {
-		ast.Inspect(s, func(n ast.Node) bool {
-			as, ok := n.(*ast.AssignStmt)
-			if !ok || found != "" {
-				return found == ""
-			}
-			for i, l := range as.Lhs {
-				if id, ok := l.(*ast.Ident); ok && id.Name == "anteHandler" && i < len(as.Rhs) {
-					found = c19Src(fset, as.Rhs[i])
-				}
-			}
-			return true
-		})
-	}
-	return found
-}
-
-// c19PlainBranch lists the handler assignments below a clause of the type switch,
-// each with the condition of the innermost enclosing if/else.
-func c19PlainBranch(fset *token.FileSet, clause string, stmts []ast.Stmt, cond string, out *[]string) {
-	for _, s := range stmts {
-		switch x := s.(type) {
-		case *ast.AssignStmt:
-			for i, l := range x.Lhs {
-				if id, ok := l.(*ast.Ident); ok && id.Name == "anteHandler" && i < len(x.Rhs) {
-					*out = append(*out, clause+" | "+cond+" | "+c19Src(fset, x.Rhs[i]))
-				}
-			}
-		case *ast.IfStmt:
-			c := c19Src(fset, x.Cond)
-			c19PlainBranch(fset, clause, x.Body.List, "if "+c, out)
-			switch el := x.Else.(type) {
-			case *ast.BlockStmt:
-				c19PlainBranch(fset, clause, el.List, "else "+c, out)
-			case *ast.IfStmt:
-				c19PlainBranch(fset, clause, []ast.Stmt{el}, "else "+c, out)
-			}
-		case *ast.BlockStmt:
-			c19PlainBranch(fset, clause, x.List, cond, out)
-		}
-	}
-}
-
-func c19ExtractSwitch(fset *token.FileSet, f *ast.File, t *c19Tables) {
-	for _, d := range f.Decls {
-		fd, ok := d.(*ast.FuncDecl)
-		if !ok || fd.Body == nil || fd.Name.Name != "NewAnteHandler" {
-			continue
-		}
-		ast.Inspect(fd.Body, func(n ast.Node) bool {
-			switch sw := n.(type) {
-			case *ast.SwitchStmt:
-				hdr := c19Src(fset, sw.Tag)
-				if sw.Init != nil {
-					hdr = c19Src(fset, sw.Init) + "; " + hdr
-				}
-				if t.SwitchOn != "" {
-					t.SwitchOn += " || " + hdr // a second switch would be news
-				} else {
-					t.SwitchOn = hdr
-				}
-				for _, c := range sw.Body.List {
-					cc := c.(*ast.CaseClause)
-					h := c19HandlerAssigned(fset, cc.Body)
-					if cc.List == nil {
-						t.SwitchDefault = h
-						continue
-					}
-					for _, e := range cc.List {
-						key := c19Src(fset, e)
-						if bl, ok := e.(*ast.BasicLit); ok && bl.Kind == token.STRING {
-							if u, err := strconv.Unquote(bl.Value); err == nil {
-								key = u
-							}
-						}
-						t.Switch = append(t.Switch, [2]string{key, h})
-					}
-				}
-				return false
-			case *ast.TypeSwitchStmt:
-				for _, c := range sw.Body.List {
-					cc := c.(*ast.CaseClause)
-					name := "default"
-					if cc.List != nil {
-						var ts []string
-						for _, e := range cc.List {
-							ts = append(ts, c19Src(fset, e))
-						}
-						name = "case " + strings.Join(ts, ", ")
-					}
-					c19PlainBranch(fset, name, cc.Body, "always", &t.Plain)
-				}
-				return false
-			}
-			return true
-		})
-	}
 }
 
 func c19ExtractDisabled(fset *token.FileSet, f *ast.File, t *c19Tables) {
@@ -283,11 +131,11 @@ func c19Extract(repo string) (c19Tables, error) {
 	if err != nil {
 		return t, err
 	}
-	t.Chains = c19ExtractChains(fset, f)
+	t.Chains = c19xExtractChains(fset, f)
 	if f, err = parse("app/ante/ante.go"); err != nil {
 		return t, err
 	}
-	c19ExtractSwitch(fset, f, &t)
+	c19xExtractSwitch(fset, f, &t)
 	if f, err = parse("app/app.go"); err != nil {
 		return t, err
 	}
